@@ -48,7 +48,7 @@ INST = {"i8": ("r8", "INST_I8", "contracts_i8.c", "int8_t"), "i16": ("r16", "INS
 
 # multiplication of two symbolic 32-bit values is a known SAT wall: attempted in thorough only
 HARD = {("i32", "times_r"), ("i32", "timesc_r"), ("i32", "times_e"), ("i32", "timesc_e"),
-        ("i16", "times_r"), ("i16", "timesc_r")}
+        ("i16", "times_r"), ("i16", "timesc_r"), ("i16", "times_e"), ("i16", "timesc_e")}
 
 
 def build(tier, work, builder):
@@ -67,10 +67,10 @@ def build(tier, work, builder):
             if hard and tier == "quick":
                 continue
             known = {}
-            timeout = 600 if hard else (240 if tier == "thorough" else 120)
+            timeout = 300 if hard else (240 if tier == "thorough" else 120)
             jobs.append(F.Job(
                 name=f"{pfx}_{op}", entry=f"h_{pfx}_{op}", objs=[wobj, cobj], enforce=f"{pfx}_{op}",
-                timeout=timeout, level="proof", functions=[f"{REAL[op]} <{tname}>"], known=known,
+                timeout=timeout, level="proof", optional=hard, functions=[f"{REAL[op]} <{tname}>"], known=known,
                 note="all arguments symbolic over the full domain of %s" % tname))
     plan = {
         "jobs": jobs,
